@@ -113,6 +113,7 @@ const (
 	kError  // error interface holding parseError
 	kFunc
 	kBuf // []byte written in place: EncLow.Buf (logical bytes + stale capacity)
+	kFloat // float32/float64: the IEEE bit pattern (Nat); only moved around and passed to math.FloatNNbits/frombits
 	kOther
 )
 
@@ -173,6 +174,7 @@ type golite struct {
 	fns     map[string]*fnCfg    // qualified Go function name -> cfg (translated functions)
 	zero    map[string]string    // Lean zero value per Go field type string (for composite literals)
 	stringsAsBytes bool          // Go strings are byte strings (wire level)
+	stringValuesAsBytes bool     // variables of type string are byte strings; string constants stay texts (error messages)
 }
 
 func qualName(pkgPath, name string) string { return pkgPath + "." + name }
@@ -220,8 +222,12 @@ func (g *golite) ltypeOf(t types.Type) (ltype, error) {
 			return ltype{k: kUnsigned, bits: 64, lean: "Nat"}, nil
 		case types.Bool, types.UntypedBool:
 			return ltype{k: kBool, lean: "Bool"}, nil
+		case types.Float32:
+			return ltype{k: kFloat, bits: 32, lean: "Nat"}, nil
+		case types.Float64:
+			return ltype{k: kFloat, bits: 64, lean: "Nat"}, nil
 		case types.String, types.UntypedString:
-			if g.stringsAsBytes {
+			if g.stringsAsBytes || (g.stringValuesAsBytes && x.Kind() == types.String) {
 				b := ltype{k: kByte, bits: 8, lean: "Byte"}
 				return ltype{k: kList, elem: &b, lean: "Bytes"}, nil
 			}
